@@ -6,8 +6,10 @@ import vlib, flow
 class C20(flow.Spec):
     pid = "C20"
     shards = 16
-    rule = ("the real SplitPool of a real agent: scripted sequences of hold / request (three priorities) / cancel (requesting "
-            "task aborted while queued or while holding) / release; every granted task registers in a live counter while it "
+    rule = ("the real SplitPool of a real agent: scripted sequences of hold / request (three priorities; tasks that drop the "
+            "connection at once and tasks that keep it until cancelled) / cancel (requesting task aborted while queued or while "
+            "holding) / release, the harness waiting after each operation until the pool is stable so that the script decides "
+            "what waits at each release; every granted task registers in a live counter while it "
             "holds the connection (and uses it); observed: grant order, the largest number of WriteConn values alive at once, "
             "whether every non-cancelled task finished and the pool still serves all three priorities afterwards; the grant "
             "order must equal the Coq model's. Plus watchdog runs on a real agent mixing, concurrently, local transactions, "
@@ -27,20 +29,41 @@ class C20(flow.Spec):
             ops = []
             nid = 1
             for _ in range(rnd.randrange(1, 4)):
-                ops.append("H")
+                longs = []          # L tasks not yet cancelled
                 queued = []
+                blocker = None
+                if rnd.random() < 0.6:
+                    ops.append("H")
+                else:
+                    blocker = nid
+                    ops.append("L %d %d" % (rnd.choice([0, 1, 2]), nid)); longs.append(nid); nid += 1
+                    tags.add("long-holder-blocks")
                 for _ in range(rnd.randrange(2, 9)):
                     p = rnd.choice([0, 0, 1, 1, 2])
-                    ops.append("Q %d %d" % (p, nid)); queued.append(nid); nid += 1
+                    if rnd.random() < 0.15:
+                        ops.append("L %d %d" % (p, nid)); longs.append(nid); tags.add("long-queued")
+                    else:
+                        ops.append("Q %d %d" % (p, nid))
+                    queued.append(nid); nid += 1
                     tags.add("prio-%d" % p)
                     if queued and rnd.random() < 0.2:
-                        c = rnd.choice(queued)
+                        c = rnd.choice([q for q in queued if q != blocker])
                         ops.append("C %d" % c); tags.add("cancel-queued")
-                ops.append("R")
-                ops.append("W %d" % (8 * len(queued) + 20))
+                        if c in longs:
+                            longs.remove(c)
+                if blocker is None:
+                    ops.append("R")
+                else:
+                    ops.append("C %d" % blocker); longs.remove(blocker); tags.add("cancel-holder")
+                # every L task still around holds the connection in its turn until it is cancelled
+                while longs:
+                    if rnd.random() < 0.4:
+                        ops.append("Q %d %d" % (rnd.choice([0, 1, 2]), nid)); nid += 1; tags.add("request-behind-long-holder")
+                    c = longs.pop(rnd.randrange(len(longs)))
+                    ops.append("C %d" % c); tags.add("cancel-holder-or-queued-long")
                 if rnd.random() < 0.3:
                     ops.append("Q %d %d" % (rnd.choice([0, 1, 2]), nid)); nid += 1; tags.add("uncontended")
-            out.append(("pool %d %s" % (sum(1 for _ in ops), " ".join(ops)), tags))
+            out.append(("pool %d %s" % (len(ops), " ".join(ops)), tags))
         M = 6 if tier == "quick" else 60
         for i in range(M):
             out.append(("mix %d %d" % (rnd.randrange(1, 10 ** 6), rnd.randrange(3, 7)), {"watchdog-mix"}))
@@ -67,35 +90,55 @@ class C20(flow.Spec):
             return None if f.get("done") == "1" else False
         if f.get("maxlive") != "1" or f.get("stuck") != "0":
             return False
-        # priority at every release: replay the script and check that whenever the scripted hold is
-        # released the waiting requests are granted client-first, then sync, then background (FIFO inside)
+        # priority and progress, following the observed grants: replay the script; whenever nobody
+        # holds the connection the next observed grants must each go to a waiting, live request of
+        # the best waiting priority, until nothing waits or an L task took the connection
         t = case.split()
+        grants = [x for x in f.get("grants", "").split(",") if x]
+        gi = 0
+        waiting = {}          # id -> priority
+        longs, holder = set(), None     # holder: "0" scripted hold, or the id of a holding L task
+
+        def drain():
+            nonlocal gi, holder
+            while holder is None and waiting:
+                if gi >= len(grants):
+                    return False                      # a live request was never served
+                g = grants[gi]; gi += 1
+                if g not in waiting or waiting[g] != min(waiting.values()):
+                    return False                      # granted to nobody waiting, or past a better priority
+                del waiting[g]
+                if g in longs:
+                    holder = g
+            return True
+
         i = 2
-        prio = {}
-        groups, cur, cancelled = [], None, set()
         while i < len(t):
-            if t[i] == "H":
-                cur = []; i += 1
-            elif t[i] == "Q":
-                prio[t[i + 2]] = int(t[i + 1])
-                if cur is not None:
-                    cur.append(t[i + 2])
-                i += 3
-            elif t[i] == "C":
-                cancelled.add(t[i + 1]); i += 2
-            elif t[i] == "R":
-                if cur is not None:
-                    groups.append([x for x in cur if x not in cancelled]); cur = None
+            o = t[i]
+            if o == "H":
+                if gi >= len(grants) or grants[gi] != "0" or holder is not None:
+                    return False
+                gi += 1; holder = "0"; i += 1
+            elif o == "R":
+                if holder == "0":
+                    holder = None
                 i += 1
+            elif o in ("Q", "L"):
+                waiting[t[i + 2]] = int(t[i + 1])
+                if o == "L":
+                    longs.add(t[i + 2])
+                i += 3
+            elif o == "C":
+                waiting.pop(t[i + 1], None)
+                if holder == t[i + 1]:
+                    holder = None
+                i += 2
             else:
                 i += 2
-        grants = [x for x in f.get("grants", "").split(",") if x]
-        pos = {g: k for k, g in enumerate(grants)}
-        for g in groups:
-            want = sorted(g, key=lambda x: (prio[x], g.index(x)))
-            got = sorted([x for x in g if x in pos], key=lambda x: pos[x])
-            if got != want:
+            if not drain():
                 return False
+        if gi != len(grants):
+            return False                              # more grants than requests
         return None
 
 
